@@ -2,6 +2,7 @@ import RosuModel.Model.GradualWire
 import RosuModel.Model.BuilderWire
 import RosuModel.Model.Convert
 import RosuModel.Model.DecodeWire
+import RosuModel.Model.DetWire
 
 open Rosu
 
@@ -21,6 +22,9 @@ def handle (line : String) : String :=
   | ["C2P", total] => Decode.handleC2P total
   | ["C2PSET", total, xs] => Decode.handleC2PSet total xs
   | ["TCOL", keys, rcs, rod, count, len] => Decode.handleTargetColumns keys rcs rod count len
+  | ["BPM", last, tps] => DetWire.handleBpm last tps
+  | ["OSU", seed, ops] => DetWire.handleOsu seed ops
+  | ["CS", seed, ops] => DetWire.handleCs seed ops
   | _ => "bad-op"
 
 partial def loop (h : IO.FS.Stream) (out : IO.FS.Stream) : IO Unit := do
